@@ -239,23 +239,27 @@ class ElementList(MutableSequence):
         :type child: :class:`Element <hl7apy.core.Element>`
         :param child: an instance of an :class:`Element <hl7apy.core.Element>` subclass
         """
-        if self._can_add_child(child):
-            try:
-                if by_name_index == -1:
-                    self.indexes[child.name].append(child)
-                else:
-                    self.indexes[child.name].insert(by_name_index, child)
-            except KeyError:
-                self.indexes[child.name] = [child]
-            self.list.insert(index, child)
-        elif child.parent == self.element and child in self.list:
-            # the child was not attached yet: _can_add_child has set its parent, which has appended it to the
-            # children. Move it to the requested position
+        can_add = self._can_add_child(child)
+        if child in self.list:
+            # the child is already listed: it was not attached yet and _can_add_child has set its parent, which
+            # has appended it, or it was already a child of the element. Move it to the requested position
+            if self.list.index(child) < index:
+                index -= 1
             self.list.remove(child)
-            self.list.insert(index, child)
-            if by_name_index != -1:
-                self.indexes[child.name].remove(child)
+            same_name = self.indexes[child.name]
+            if by_name_index != -1 and same_name.index(child) < by_name_index:
+                by_name_index -= 1
+            same_name.remove(child)
+        elif not can_add:
+            return
+        try:
+            if by_name_index == -1:
+                self.indexes[child.name].append(child)
+            else:
                 self.indexes[child.name].insert(by_name_index, child)
+        except KeyError:
+            self.indexes[child.name] = [child]
+        self.list.insert(index, child)
 
     def append(self, child):
         """
